@@ -41,6 +41,17 @@ def vocab_isa(rng, with_macros, with_regs, with_pre):
         isa['general']['registers'] = regs
     for i, m in enumerate(mns):
         isa['instructions'][m] = {'bytecode': {'value': i, 'size': 8}}
+    # an enumeration operand: its keys are operand words, not registers / mnemonics / macros
+    enum_keys = []
+    if rng.random() < 0.6:
+        enum_keys = [k_ for k_ in rng.sample(['z', 'nz', 'cs', 'ge_u', 'lt0', 'always', 'r9', 'spx'], rng.randrange(1, 5))
+                     if k_ not in regs and k_ not in mns]
+        if enum_keys:
+            isa['operand_sets']['cond'] = {'operand_values': {'cc': {'type': 'enumeration', 'bytecode': {
+                'size': 4, 'value_dict': {k_: n_ for n_, k_ in enumerate(enum_keys)}},
+                'argument': {'size': 8, 'byte_align': True, 'value_dict': {k_: 16 + n_ for n_, k_ in enumerate(enum_keys)}}}}}
+            isa['instructions'][mns[0]] = {'bytecode': {'value': 0, 'size': 4}, 'operands': {'count': 1, 'operand_sets': {'list': ['cond']}}}
+    isa['_enum_keys'] = enum_keys
     macros = []
     if with_macros:
         macros = [m for m in rng.sample(MACRO_POOL, rng.randrange(1, 4)) if m not in mns and m not in regs]
@@ -85,7 +96,7 @@ class C20(core.Check):
     required_buckets = {b: 3 for b in ['target:vscode', 'target:sublime', 'vocab:macros', 'vocab:no-macros', 'vocab:registers',
                                        'vocab:no-registers', 'vocab:predefined', 'vocab:no-predefined', 'mnemonic:contains-dot',
                                        'mnemonic:prefix-of-another', 'mnemonic:single-letter', 'vocab:underscore-at-edge',
-                                       'description:special-characters', 'register:looks-like-a-numeric-literal', 'verbosity:1', 'verbosity:2', 'verbosity:3']}
+                                       'description:special-characters', 'register:looks-like-a-numeric-literal', 'vocab:enumeration-keys', 'verbosity:1', 'verbosity:2', 'verbosity:3']}
 
     def __init__(self):
         self.words = 0
@@ -97,6 +108,12 @@ class C20(core.Check):
             rng = core.rng_for(0 if i < n_pre else seed, self.pid, i)
             wm, wr, wp = bool(i & 1), bool(i & 2), bool(i & 4)
             isa, mns, macros, regs, pre = vocab_isa(rng, wm, wr, wp)
+            enum_keys = isa.pop('_enum_keys')
+            macros = [m_ for m_ in macros if m_ not in enum_keys]
+            if 'macros' in isa:
+                isa['macros'] = {m_: v_ for m_, v_ in isa['macros'].items() if m_ not in enum_keys}
+                if not isa['macros']:
+                    del isa['macros']
             fmt = 'yaml' if i % 5 == 0 else 'json'
             fn, text = isamod.render_isa(isa, fmt)
             tags = {'vocab:macros' if macros else 'vocab:no-macros', 'vocab:registers' if regs else 'vocab:no-registers',
@@ -109,6 +126,8 @@ class C20(core.Check):
                 tags.add('mnemonic:single-letter')
             if any(w.startswith('_') or w.endswith('_') for w in mns + macros + regs):
                 tags.add('vocab:underscore-at-edge')
+            if enum_keys:
+                tags.add('vocab:enumeration-keys')
             if any(r_ in ('b0', 'b1', 'b10', 'ah', 'bh', 'c0h') for r_ in regs):
                 tags.add('register:looks-like-a-numeric-literal')
             if isa['description'] != DESCRIPTIONS[0]:
@@ -125,7 +144,7 @@ class C20(core.Check):
                     vt = {f'verbosity:{min(nv, 3)}'}
                 yield {'runs': [{'files': {fn: text}, 'dirs': ['out'], 'argv': argv, 'post': 'inspect_extension', 'target': tgt,
                                  'ext_dir': 'out', 'collect_all': False, 'hashseed': str(i % 4), 'probes': []}],
-                       'meta': {'mns': mns, 'macros': macros, 'regs': regs, 'pre': pre, 'target': tgt},
+                       'meta': {'mns': mns, 'macros': macros, 'regs': regs, 'pre': pre, 'target': tgt, 'enum_keys': enum_keys},
                        'tags': sorted(tags | vt | {'target:' + tgt})}
 
     def classify(self, patterns, cls, word):
@@ -218,6 +237,16 @@ class C20(core.Check):
                                 continue       # a real vocabulary word followed by punctuation, e.g. `br` in `br.e`
                             why = 'dot-unescaped' if '.' in w and ('x' in nm or '_' in nm) and len(nm) == len(w) else 'other'
                             found.append((f'near-miss-classified/{cls}/{why}', {'word': nm, 'near': w, 'span': r, 'pattern': pats.get(cls)}))
+        # words the definition uses that belong to none of the three classes (enumeration keys, predefined names) are not
+        # registers, instructions or macros
+        others = [w for w in (m.get('enum_keys') or []) if w.lower() not in {x.lower() for x in allwords}]
+        for cls in ('register', 'instruction', 'macro'):
+            for w in others:
+                for form in (w, w.upper()):
+                    self.words += 1
+                    r = self.classify(pats, cls, form)
+                    if isinstance(r, tuple) and r == (0, len(form)):
+                        found.append((f'non-{cls}-word-classified-as-{cls}/enumeration-key', {'word': form, 'pattern': (pats.get(cls) or '')[:300]}))
         # the end-of-statement look-ahead of an instruction / macro rule must stop in front of every operation mnemonic
         # (instructions AND macros), otherwise a second statement on the same line is swallowed as operands
         for endcls in ('end:instruction', 'end:macro'):
